@@ -26,14 +26,22 @@ def check_cache_guard(ctx, R="C20.guard"):
     checks = []
     for n in ast.walk(fp):
         if isinstance(n, ast.If) and any(isinstance(x, ast.Raise) for x in n.body) and n.lineno < ld.lineno:
-            checks.append(unparse(n.test))
+            checks.append(n.test)
+
+    def implied(test, atoms):
+        """the raising test is definitely true when the mismatch atoms hold (three-valued evaluation)"""
+        env = {}
+        for a in atoms:
+            env[a] = True
+        return lib.tri_eval(test, env) is True
+
     need = {
-        "version": lambda t: "_currentFormatVersion()" in t and "!=" in t,
-        "map digest": lambda t: "originalDigest != digest" in t or "digest != originalDigest" in t,
-        "options digest": lambda t: "optionsDigest != cachedOptionsDigest" in t or "cachedOptionsDigest != optionsDigest" in t,
+        "version": [["version[0] != cls._currentFormatVersion()"], ["cls._currentFormatVersion() != version[0]"]],
+        "map digest": [["originalDigest", "originalDigest != digest"], ["originalDigest", "digest != originalDigest"]],
+        "options digest": [["optionsDigest", "optionsDigest != cachedOptionsDigest"], ["optionsDigest", "cachedOptionsDigest != optionsDigest"]],
     }
-    for name, pred in need.items():
-        if any(pred(t) for t in checks):
+    for name, alts in need.items():
+        if any(implied(t_, atoms) for t_ in checks for atoms in alts):
             ctx.ok(R, fp, f"fromPickle: the {name} check precedes pickle.load and raises on mismatch")
         else:
             ctx.finding(R, ld, f"fromPickle lacks {name} check", f"Network.fromPickle reaches pickle.load without a raising `{name}` comparison before it: a stale or foreign cache is loaded as if it matched the map")
